@@ -15,7 +15,7 @@ MANIFEST = dict(
 
 KEYS_PREFIX = ("toN:", "fromN:", "reset:", "to:nilrecv", "from:nilarg", "compile", "exit", "ctoralloc:")
 
-BASE = dict(kinds=["same"] * 3 + ["conv"] * 2 + ["func"] * 3 + ["sub"] * 4 + ["each"] * 4 + ["none"],
+BASE = dict(twins=0.3, kinds=["same"] * 3 + ["conv"] * 2 + ["func"] * 3 + ["sub"] * 4 + ["each"] * 4 + ["none"],
             names=["ident"] * 6 + ["acronym", "tag"], embeds=0.9, ptr_embed=0.65, depth2=0.6, deep=0.7, i=0.05)
 
 
@@ -61,6 +61,11 @@ def shaped(g):
     # arrays: identical arrays are assigned; slice -> array / *array is not mapped (repaired by bf4b467: it was converted and panicked)
     out.append(("arrays", mapgen.mk_spec([mapgen.F("Key", mapgen.SL(mapgen.U8)), mapgen.F("Pair", mapgen.SL(mapgen.INT)), mapgen.F("Sum", mapgen.ARR4), mapgen.F("Name", mapgen.STR)],
                                          [mapgen.F("Key", mapgen.ARR4), mapgen.F("Pair", mapgen.P(mapgen.ARR2I)), mapgen.F("Sum", mapgen.ARR4), mapgen.F("Name", mapgen.STR)])))
+    # one name at three depths in every declaration order of the depths, the shallowest behind a pointer embed (seeded change C09-12)
+    import itertools
+    for side in ("src", "dest"):
+        for order in itertools.permutations((1, 2, 3)):
+            out.append(("shadow-triple-%s-%s" % (side, "".join(map(str, order))), mapgen.shadow_triple(side, order, True, order[0] == 2)))
     # the same struct type embedded twice at different depths (seeded change C09-5): guards and allocations follow the SHALLOWER path
     for side in ("src", "dest", "src", "dest"):
         out.append(("embedded-twice-" + side, g.pair(**dict(BASE, embeds=1.0, ptr_embed=0.9, depth2=1.0, deep=0.95, diamond=1.0, diamond_side=side, selfembed=0.0))))
